@@ -8,7 +8,7 @@ import (
 
 func init() {
 	register("C03", &propInfo{
-		Explanation: "GD: the library's only wrapper around arbitrary predicates (CheckedFuncSolid, 2D and 3D) calls the predicate only after both bound tests; no library function builds a solid with the unchecked FuncSolid; the Contains methods whose membership test is defined outside their box return non-false only under InBounds(receiver, point). UNIT: bound expressions in bounder.go, solid.go, shapes.go, metaball.go, polytope.go and the toolbox parts are dimensionally consistent (a bound is a length). ABSORB: no bound is computed as x.Max(y.Min(x)) / x.Min(y.Max(x)). BOUNDDIR: within one combinator type the operands' lower bounds are always folded with one of Coord.Min/Max and the upper bounds with the other.",
+		Explanation: "GD: the library's only wrapper around arbitrary predicates (CheckedFuncSolid, 2D and 3D) calls the predicate only after both bound tests; no library function builds a solid with the unchecked FuncSolid; the Contains methods whose membership test is defined outside their box return non-false only under InBounds(receiver, point). UNIT: bound expressions in bounder.go, solid.go, shapes.go, metaball.go, polytope.go and the toolbox parts are dimensionally consistent (a bound is a length). ABSORB: no bound is computed as x.Max(y.Min(x)) / x.Min(y.Max(x)). GD.WARP: a Contains method whose type inherits Min/Max from an embedded object and asks that object about a remapped point tests InBounds(receiver, point) first. BOUNDDIR: within one combinator type the operands' lower bounds are always folded with one of Coord.Min/Max and the upper bounds with the other.",
 		Trusted:     append([]string{"the table of Contains methods that need an explicit InBounds guard (checker/gd.go, 10 rows with reasons, confirmed by reading)"}, unitTrusted...),
 		Fixtures:    []string{"g", "u"},
 		Run: func(c *Ctx) {
@@ -16,6 +16,8 @@ func init() {
 			c.floor("GD.INB", 10)
 			c.floor("GD.CHK", 2)
 			c.floor("GD.RAW", 2)
+			c.runWarpGuard("GD.WARP", append(c.libPkgs()[:4:4], c.fixturePkg("g")))
+			c.floor("GD.WARP", 0)
 			pkgs := c.unitPkgs("u")
 			ff := c.fileFilter("bounder.go", "solid.go", "shapes.go", "metaball.go", "polytope.go", "transform.go",
 				"screw.go", "teardrop.go", "ramp.go", "clamp.go", "gear.go", "height_map.go", "line_join.go", "radial_curve.go", "rect_set.go", "slice.go")
@@ -52,6 +54,8 @@ func init() {
 			c.floor("CANON", 1)
 		},
 		SelfTest: []Mutation{
+			{Name: "ramp answers for a rescaled point under the wrapped solid's box (defect repaired in db8a90e)", File: "toolbox3d/ramp.go",
+				Old: "\tif !model3d.InBounds(r, c) {\n\t\treturn false\n\t}\n\taxis := r.P2.Sub(r.P1)", New: "\taxis := r.P2.Sub(r.P1)", Rule: "GD.WARP", Expect: "Ramp"},
 			{Name: "height map solid checks only z", File: "toolbox3d/height_map.go",
 				Old: "return model3d.InBounds(h, c) && h.heightMap.HigherAt(c.XY(), math.Abs(c.Z))", New: "return c.Z >= h.Min().Z && c.Z <= h.Max().Z && h.heightMap.HigherAt(c.XY(), math.Abs(c.Z))", Rule: "GD.INB", Expect: "heightMapSolid"},
 			{Name: "CheckedFuncSolid forgets the upper bound", File: "model3d/solid.go",
